@@ -112,6 +112,10 @@ type Case struct {
 	// issue HLS requests at the same moment: every request consults the blacklist (and sweeps its expired entries) in
 	// a handler goroutine of its own
 	BlBurst int `json:"bl_burst,omitempty"`
+	// HlsRefuse > 0 (HLS cases): the admission callback (a wrapper around the manager's IAuthentication) refuses every
+	// HlsRefuse-th HLS viewer; HLS sub-session mode is always on. A refused request (404) is fine, what follows it must
+	// still be served.
+	HlsRefuse int `json:"hls_refuse,omitempty"`
 	// FpsClock: the harness owns nazalog.Clock (one second per published message): a group's 32-second video
 	// frame statistics fill within the workload
 	FpsClock bool `json:"fps_clock,omitempty"`
@@ -182,6 +186,9 @@ func genCase(t *rapid.T) Case {
 	pauses := []int{0, 0, 0, 0, 0, 0, 1, 1, 1, 1, 20, 20, 200, 200, 1500, 1500, 60000, 260000}
 	c.Codec = []int{0, 0, 0, 1, 2, 3, 4, 5, 6}[rnd.Intn(9)]
 	c.FpsClock = rnd.Intn(3) == 0
+	if c.Hls {
+		c.HlsRefuse = []int{0, 0, 1, 2, 3}[rnd.Intn(5)]
+	}
 	if c.L3 {
 		c.BlBurst = []int{0, 0, 30, 250}[rnd.Intn(4)]
 	}
@@ -274,7 +281,7 @@ func classify(c Case) (bool, []string) {
 		labels = append(labels, "dispose:at-end")
 	}
 	for name, on := range map[string]bool{"hls": c.Hls, "hook": c.Hook, "push": c.Push, "record": c.Record, "l3": c.L3, "merge-write": c.Merge > 0,
-		"dummy-audio": c.DummyAudio, "static-pull": c.StaticPull, "linger>=1s": c.LingerMs >= 1000, "linger": c.LingerMs > 0, "lal-http-notify": c.Notify, "blacklist-expiry-burst": c.BlBurst > 0, "fps-clock": c.FpsClock} {
+		"dummy-audio": c.DummyAudio, "static-pull": c.StaticPull, "linger>=1s": c.LingerMs >= 1000, "linger": c.LingerMs > 0, "lal-http-notify": c.Notify, "blacklist-expiry-burst": c.BlBurst > 0, "fps-clock": c.FpsClock, "hls-viewer-refused": c.HlsRefuse > 0} {
 		if on {
 			labels = append(labels, "cfg:"+name)
 		}
